@@ -242,6 +242,13 @@ def model_assignment(ctx, model):
     """input values of a z3 model as Fractions (algebraic numbers rounded to 30 digits)"""
     a = {}
     for nm, (v, kind) in ctx.inputs.items():
+        if nm in ctx.fp_inputs:
+            fv = model.eval(ctx.fp_inputs[nm], model_completion=True)
+            try:
+                a[nm] = Fraction(float(fv.as_string()) if not fv.isInf() else 0.0) if not fv.isNaN() else Fraction(0)
+            except Exception:
+                a[nm] = Fraction(0)
+            continue
         val = model.eval(v, model_completion=True)
         a[nm] = _to_fraction(val)
     return a
